@@ -106,3 +106,35 @@ Print Assumptions C06_doc_list_order_irrelevant.
 Print Assumptions C06_documented_is_served.
 Print Assumptions C06_dependencies_closed.
 Print Assumptions C06_invalid_reference_only_if_undefined.
+
+(* 6. the top-level tag array (DocTags.v): strictly increasing in byte order —
+   no name twice, one possible arrangement — with exactly the configured names
+   and the tags of the endpoints whose range contains v (published or not: the
+   visibility filter of gen_openapi comes after the tags are gathered); so it
+   depends neither on the order of registration nor on the iteration order of
+   the hash containers it is gathered in *)
+From DS Require Import DocTags DocTagsProofs.
+From Coq Require Import Sorted.
+
+Theorem C06_tags_sorted : forall V cmp tags_of cfg (r : node V) v,
+  StronglySorted str_lt (doc_tags V cmp tags_of cfg r v).
+Proof. exact doc_tags_sorted. Qed.
+
+Theorem C06_tags_exact : forall V cmp tags_of (eps : list (decl V)) r cfg v t,
+  build V cmp eps = Ok r ->
+  (In t (doc_tags V cmp tags_of cfg r v) <->
+   In t cfg \/ exists tpl e, In (tpl, e) eps /\ vmatches V cmp (e_versions e) (Some v) = true /\ In t (tags_of e)).
+Proof. exact doc_tags_exact. Qed.
+
+Theorem C06_tags_order_irrelevant : forall V cmp tags_of (eps eps' : list (decl V)) r r' cfg v,
+  Permutation eps eps' -> build V cmp eps = Ok r -> build V cmp eps' = Ok r' ->
+  doc_tags V cmp tags_of cfg r v = doc_tags V cmp tags_of cfg r' v.
+Proof. exact doc_tags_order_irrelevant. Qed.
+
+Theorem C06_tags_cfg_order_irrelevant : forall V cmp tags_of (r : node V) cfg cfg' v,
+  Permutation cfg cfg' -> doc_tags V cmp tags_of cfg r v = doc_tags V cmp tags_of cfg' r v.
+Proof. exact doc_tags_cfg_order_irrelevant. Qed.
+Print Assumptions C06_tags_sorted.
+Print Assumptions C06_tags_exact.
+Print Assumptions C06_tags_order_irrelevant.
+Print Assumptions C06_tags_cfg_order_irrelevant.
